@@ -491,6 +491,7 @@ package stun
 //@   | && be16(m.Raw, 2) == m.Length
 //@   | && forall(i, 0, 20 + old(m.Length), i == 2 || i == 3 || m.Raw[i] == old(m.Raw[i]))
 //@   | && forall(x, 20 + m.Length, inf, old(m.Raw)[x] == old(m.Raw[x]))
+//@   | && forall(x, 0, 20 + old(m.Length), x == 2 || x == 3 || old(m.Raw)[x] == old(m.Raw[x]))
 //@   | && be16(m.Raw, 20 + old(m.Length)) == t && be16(m.Raw, 20 + old(m.Length) + 2) == len(val)
 //@   | && (old(NoClobber(m, val)) ==> forall(j, 0, len(val), m.Raw[20 + old(m.Length) + 4 + j] == old(val[j])))
 //@   | && forall(j, len(val), pad4(len(val)), m.Raw[20 + old(m.Length) + 4 + j] == 0)
@@ -524,10 +525,35 @@ package stun
 //@   assigns m.Raw, m.Length, m.Attributes, mem(m.Raw), mem(m.Attributes)
 //@   allocates
 //@   ensures Appended(m, attrType, val)
+//@   props C03
+//@   derives forall(k, 0, old(len(m.Attributes)) + 1, vpos(WLens(m), k) == old(vpos(WLens(m), k)), vpos(WLens(m), k))
+//@   derives old(WireHdr(m)) ==> WireHdr(m)
+//@   derives old(WireHdr(m) && WireLoc(m)) ==> WireLoc(m)
+//@   derives old(WireHdr(m) && WireLoc(m) && WireVal(m) && NoClobber(m, val)) ==> WireVal(m)
+//@   derives old(WireHdr(m) && WirePad(m)) ==> WirePad(m)
+//@   deriveuse forall(k, 0, old(len(m.Attributes)) + 1, vpos_frame(old(WLens(m)), WLens(m), k), vpos(WLens(m), k))
 //@   loop 0
 //@     assigns buf[0:len(buf)]
 //@     invariant -1 <= rangeindex && forall(j, 0, rangeindex+1, buf[j] == 0)
 //@     decreases len(buf) - rangeindex
+
+// ---- the representation invariant of C03: "the struct always matches its wire bytes" ----
+// Wire(m): the attribute list is what an RFC 5389 parser reads from m.Raw: attribute k's header sits at
+// vpos(k) (the position determined by the lengths of the values before it), carries its type and length, is followed
+// by its value bytes and by zero padding up to a multiple of 4; the attributes fill the declared body exactly.
+//@ define WLens(m) = lenslice(m.Attributes, Value)
+//@ define WireHdr(m) = len(m.Attributes) >= 0 && vpos(WLens(m), len(m.Attributes)) == 20 + m.Length && len(m.Raw) >= 20 + m.Length
+//@   | && forall(k, 0, len(m.Attributes), 20 <= vpos(WLens(m), k) && vpos(WLens(m), k+1) <= 20 + m.Length
+//@   |      && vpos(WLens(m), k+1) == vpos(WLens(m), k) + 4 + pad4(len(m.Attributes[k].Value))
+//@   |      && 0 <= len(m.Attributes[k].Value) && len(m.Attributes[k].Value) <= 65535
+//@   |      && be16(m.Raw, vpos(WLens(m), k)) == m.Attributes[k].Type
+//@   |      && be16(m.Raw, vpos(WLens(m), k) + 2) == len(m.Attributes[k].Value)
+//@   |      && m.Attributes[k].Length == len(m.Attributes[k].Value), vpos(WLens(m), k))
+// a value that lives in the message's own buffer is the view of its wire bytes (never some other part of the buffer)
+//@ define WireLoc(m) = forall(k, 0, len(m.Attributes), region(m.Attributes[k].Value) == region(m.Raw) ==> off(m.Attributes[k].Value) == off(m.Raw) + vpos(WLens(m), k) + 4, vpos(WLens(m), k))
+//@ define WireVal(m) = forall(k, 0, len(m.Attributes), forall(j, 0, len(m.Attributes[k].Value), m.Raw[vpos(WLens(m), k) + 4 + j] == m.Attributes[k].Value[j]), vpos(WLens(m), k))
+//@ define WirePad(m) = forall(k, 0, len(m.Attributes), forall(j, len(m.Attributes[k].Value), pad4(len(m.Attributes[k].Value)), m.Raw[vpos(WLens(m), k) + 4 + j] == 0), vpos(WLens(m), k))
+//@ define Wire(m) = WireHdr(m) && WireLoc(m) && WireVal(m) && WirePad(m)
 
 //@ func AttrType.Value(t)
 //@   transparent
@@ -1058,8 +1084,11 @@ package stun
 //@   ensures forall(i, 0, 20, i == 2 || i == 3 || m.Raw[i] == old(m.Raw[i]))
 //@   ensures region(m.Raw) == old(region(m.Raw)) || fresh(m.Raw)
 //@   ensures forall(k, 0, len(m.Attributes), m.Attributes[k].Type == old(m.Attributes[k].Type) && m.Attributes[k].Length == old(len(m.Attributes[k].Value)) && len(m.Attributes[k].Value) == old(len(m.Attributes[k].Value)))
-//@   -- not proved here (solver budget: the nested invariants needed 10-60 s per obligation and were unstable): the wire bytes
-//@   -- (type, length, value, padding at vpos(k)) of each re-added attribute; see the bounded stand-in for Encode
+//@   -- the wire bytes: the struct is the parse of the re-written buffer, and every value keeps the bytes it had
+//@   props C03
+//@   ensures Wire(m)
+//@   ensures forall(k, 0, len(m.Attributes), forall(j, 0, len(m.Attributes[k].Value), m.Raw[vpos(WLens(m), k) + 4 + j] == old(m.Attributes[k].Value[j])), vpos(WLens(m), k))
+//@   props C03 C08
 //@   loop 0
 //@     assigns a, m.Raw, m.Length, m.Attributes, mem(m.Raw), mem(m.Attributes)
 //@     invariant -1 <= rangeindex && rangeindex < len(attributes) || len(attributes) == 0 && rangeindex == -1
@@ -1071,6 +1100,14 @@ package stun
 //@     invariant forall(i, 0, 20, i == 2 || i == 3 || m.Raw[i] == loopold(m.Raw[i]))
 //@     invariant forall(k, rangeindex + 1, len(attributes), attributes[k] == loopold(attributes[k]))
 //@     invariant forall(k, 0, rangeindex + 1, attributes[k].Type == loopold(attributes[k].Type) && attributes[k].Length == loopold(len(attributes[k].Value)) && len(attributes[k].Value) == loopold(len(attributes[k].Value)))
+//@     props C03
+//@     invariant Wire(m)
+//@     invariant forall(k, 0, rangeindex + 2, vpos(WLens(m), k) == loopold(vpos(lenslice(attributes, Value), k)), vpos(WLens(m), k))
+//@     invariant forall(k, 0, rangeindex + 1, forall(j, 0, len(m.Attributes[k].Value), m.Raw[vpos(WLens(m), k) + 4 + j] == loopold(attributes[k].Value[j])), vpos(WLens(m), k))
+//@     -- bytes of the buffer the loop started with that lie beyond the part re-written so far are still what they were
+//@     -- (a value that is a view of that buffer sits exactly where it will be re-written: EncodeOK)
+//@     invariant forall(x, 20 + m.Length, inf, loopold(m.Raw)[x] == loopold(m.Raw[x]))
+//@     props C03 C08
 //@     decreases len(attributes) - rangeindex
 
 //@ func (*Message).Encode(m)
